@@ -300,7 +300,7 @@ func runInflight(res *lp.Result, prop string) {
 			switch {
 			case r < 40:
 				id := 0
-				if prop == "C09" && rng.Intn(10) == 0 {
+				if rng.Intn(10) == 0 { // a caller-chosen id now and then (C10: also the id of a request that failed but is not answered yet)
 					id = 1 + rng.Intn(n+3)
 					if id > 32767 {
 						id = 32767 // stream ids are int16
